@@ -24,6 +24,7 @@ func die(f string, a ...interface{}) {
 
 // eachLine calls f with every non-empty line of the ndjson file.
 func eachLine(path string, f func(line []byte)) {
+	lineNo = 0
 	fh, err := os.Open(path)
 	if err != nil {
 		die("open %s: %v", path, err)
@@ -36,12 +37,16 @@ func eachLine(path string, f func(line []byte)) {
 		if len(b) == 0 {
 			continue
 		}
+		lineNo++
 		f(b)
 	}
 	if err := sc.Err(); err != nil {
 		die("read %s: %v", path, err)
 	}
 }
+
+// lineNo is the 1-based number of the vector (non-empty line) being replayed within its file.
+var lineNo int
 
 type outFile struct {
 	f *os.File
@@ -57,7 +62,8 @@ func newOut(path string) *outFile {
 	return &outFile{f: f, w: bufio.NewWriterSize(f, 1<<20)}
 }
 
-func (o *outFile) put(v interface{}) {
+func (o *outFile) put(v map[string]interface{}) {
+	v["line"] = lineNo
 	b, err := json.Marshal(v)
 	if err != nil {
 		die("marshal: %v", err)
